@@ -279,7 +279,7 @@ func c04Main(args []string) {
 
 		fast := c04Entries[:1]
 		// torn writes: every crash point (exhaustive per document), all entry points on a sample
-		full := len(dtxt) <= 20000 || *tier == "thorough"
+		full := len(dtxt) <= 20000 || (*tier == "thorough" && len(dtxt) <= 60000)
 		sum.Exhaustive = full
 		step := 1
 		if !full {
